@@ -27,3 +27,22 @@ CASES = [
          old="      auto  list_val( *it);\n\n      check( list_val);\n\n      if (!mFormats.empty())\n      {\n         format( list_val);\n         // we use the position",
          new="      auto  list_val( *it);\n      check( list_val);\n      if (!mFormats.empty())\n      {\n         format( list_val);\n         // we use the position"),
 ]
+
+CA = 'src/celma/prog_args/detail/container_adapter.hpp'
+CASES += [
+    dict(id='c06-multiset-contains-inverted', prop='C06', file=CA, expect='R2',
+         old="      return mDestCont.find( value) != mDestCont.end();\n   } // ContainerAdapter< std::multiset< T>>::contains",
+         new="      return mDestCont.find( value) == mDestCont.end();\n   } // ContainerAdapter< std::multiset< T>>::contains"),
+    dict(id='c06-deque-sort-descending', prop='C06', file=CA, expect='R2',
+         old="      std::sort( mDestCont.begin(), mDestCont.end());\n   } // ContainerAdapter< std::deque< T>>::sort",
+         new="      std::sort( mDestCont.begin(), mDestCont.end(), std::greater< T>());\n   } // ContainerAdapter< std::deque< T>>::sort"),
+    dict(id='c06-deque-sort-partial', prop='C06', file=CA, expect='R2',
+         old="      std::sort( mDestCont.begin(), mDestCont.end());\n   } // ContainerAdapter< std::deque< T>>::sort",
+         new="      std::sort( mDestCont.begin() + 1, mDestCont.end());\n   } // ContainerAdapter< std::deque< T>>::sort"),
+    dict(id='c06-eq-multiset-contains-count', prop='C06', file=CA, expect=None,
+         old="      return mDestCont.find( value) != mDestCont.end();\n   } // ContainerAdapter< std::multiset< T>>::contains",
+         new="      return mDestCont.count( value) != 0;\n   } // ContainerAdapter< std::multiset< T>>::contains"),
+    dict(id='c06-eq-deque-stable-sort', prop='C06', file=CA, expect=None,
+         old="      std::sort( mDestCont.begin(), mDestCont.end());\n   } // ContainerAdapter< std::deque< T>>::sort",
+         new="      std::stable_sort( mDestCont.begin(), mDestCont.end());\n   } // ContainerAdapter< std::deque< T>>::sort"),
+]
